@@ -242,7 +242,7 @@ pub fn run(args: &[String]) {
     let transport = args.iter().find_map(|a| a.strip_prefix("--transport=")).unwrap_or("unix").to_string();
     let dir = tmpdir("conntrace");
     let addr = if transport == "tcp" {
-        format!("tcp:127.0.0.1:{}", 21000 + (std::process::id() % 20000))
+        format!("tcp:127.0.0.1:{}", free_port(false))
     } else {
         format!("unix:{}/s", dir.display())
     };
